@@ -8,6 +8,7 @@ AUX = c01.AUX + [
     ('K', ('class', None, [('p', False, A), ('q', False, ('opt', B))])),
     ('Z', ('class', None, [('p', False, ('opt', A))])),
     ('E', ('rule', None, ('str', ''))),
+    ('E1', ('rule', None, A)),
     ('W', ('class', None, [('xs', False, ('star', ('ref', 'K'))), ('t', False, ('opt', ('ref', 'Z')))])),
     ('Q', ('class', ['n', 'tag'], [('xs', False, ('rep', A, 'n', 'n')), ('v', False, ('py', '(n, tag)'))])),
 ]
@@ -24,7 +25,11 @@ MORE_LEAVES = [('ref', 'K'), ('ref', 'Z'), ('ref', 'W'),
                # element that may match nothing
                ('sep', ('str', 'a'), ('right', ('opt', ('str', 'b')), ('str', 'A')), True, True, True, False),
                ('sep', ('str', 'a'), ('right', ('opt', ('str', 'b')), ('str', 'A')), True, False, True, False),
-               ('rep', ('opt', ('str', 'a')), 2, 3)]
+               ('rep', ('opt', ('str', 'a')), 2, 3),
+               # operator tables with a non-associative row and no prefix / postfix rows (a chained operator ends the
+               # expression before it): operand a bare literal, a rule
+               ('optable', ('str', 'a'), (('infix', (('str', 'b'),)),)),
+               ('optable', ('ref', 'E1'), (('infix', (('str', 'b'),)), ('left', (('str', 'A'),))))]
 EXTRA_STARTS = [
     ('rule', None, ('ref', 'K')), ('rule', None, ('ref', 'Z')), ('rule', None, ('ref', 'W')),
     ('rule', None, ('star', ('ref', 'K'))), ('rule', None, ('seq', ('expect', ('ref', 'K')), ('ref', 'K'))),
